@@ -18,12 +18,11 @@ from harness import core
 PROP = 'C20'
 MODULE = 'Props.C20'
 THEOREMS = ['C20_only_named', 'C20_outputs_agree', 'C20_output_on_exit_or_interrupt', 'C20_other_exception',
-            'C20_errors_touch_nothing', 'C20_namespace_as_found', 'C20_builtins_restored_when_had',
-            'C20_builtins_restored_repaired', 'C20_builtins_leak_persists', 'C20_builtins_leak_refuted',
-            'C20_builtins_leak_witness', 'C20_nonvacuous']
+            'C20_errors_touch_nothing', 'C20_namespace_as_found', 'C20_builtins_restored',
+            'C20_builtins_restored_when_had', 'C20_builtins_witness', 'C20_nonvacuous']
 LEVEL = 'proof'
 DRIVER = 'harness.drivers.c20'
-FINDING = 'C20-builtins-profile-left-behind'
+FINDING = 'C20-builtins-profile-left-behind'   # status 'fixed' (350dbfa): the signature now only labels a regression
 
 # the function universe of the driver (ids, how to name / call them, shape)
 FUN = {
@@ -416,7 +415,7 @@ def run(tier, seed):
                        'SystemExit / KeyboardInterrupt / ValueError',
                        '-f never names the same function twice in one invocation (re-registration is C12\'s finding)']
     if leak_first is not None:
-        res.notes.append('finding %s reproduced on %d case(s); first: %s' % (FINDING, res.coverage['leak_cases'], leak_first['why']))
+        res.notes.append('REGRESSION of the fixed finding %s on %d case(s); first: %s' % (FINDING, res.coverage['leak_cases'], leak_first['why']))
     return res
 
 
